@@ -8,9 +8,9 @@ Require Import ZV.gen.KernelGen ZV.Kernel ZV.Bytes.
 Import ListNotations.
 Open Scope N_scope.
 Ltac Zify.zify_post_hook ::= Z.div_mod_to_equations.
-Ltac trefl := timeout 30 reflexivity.
-Ltac tlia := timeout 60 lia.
-Ltac tnia := timeout 60 nia.
+Ltac trefl := timeout 240 reflexivity.
+Ltac tlia := timeout 240 lia.
+Ltac tnia := timeout 240 nia.
 
 (* numUvarintBytes x = number of bytes binary.PutUvarint emits for x *)
 Lemma numUvarint_loop : forall f1 f2 x n, x < 128 ^ N.of_nat f1 -> x < 128 ^ N.of_nat f2 -> f2 <> O -> n + N.of_nat f1 < 2 ^ 64 ->
